@@ -191,9 +191,48 @@ def cert_envs(node, prows, params):
     return envs
 
 
+def gen_thin(rng, params):
+    """cuts / intersections with a small area share (0.1 % - 6 %), positive by construction: thin annulus, a plug over
+    the first grid point of A, a thin lens; optionally moved.  They make the first grid of the grid paths empty."""
+    from geomgen import c as C, PF, dy
+    cx, cy = dy(rng, -2, 2), dy(rng, -2, 2)
+    r = dy(rng, 0.5, 2)
+    kind = rng.choice(["annulus", "annulus", "plug-circle", "plug-par", "lens"])
+    circ = lambda x, y, rr: Node("circle", "x", [PF([C(x), C(y)]), PF([C(rr)])])
+    if kind == "annulus":
+        rho = rng.choice([Fr(9, 10), Fr(15, 16), Fr(31, 32), Fr(63, 64)])
+        node = Node("cut", None, [], [circ(cx, cy, r), circ(cx, cy, r * rho)])
+    elif kind == "plug-circle":
+        # the n = 1 sunflower point of A sits at radius r*sqrt(1/3), angle 2*pi/golden ratio
+        import math
+        ang = 2 * math.pi / ((math.sqrt(5) + 1) / 2)
+        px = cx + Fr(round(float(r) * math.sqrt(1 / 3) * math.cos(ang) * 64), 64)
+        py = cy + Fr(round(float(r) * math.sqrt(1 / 3) * math.sin(ang) * 64), 64)
+        node = Node("cut", None, [], [circ(cx, cy, r), circ(px, py, r / 4)])
+    elif kind == "plug-par":
+        d1, d2 = [dy(rng, 1, 3), dy(rng, -1, 1)], [dy(rng, -1, 1), dy(rng, 1, 3)]
+        par = Node("par", "x", [PF([C(cx), C(cy)]), PF([C(cx + d1[0]), C(cy + d1[1])]), PF([C(cx + d2[0]), C(cy + d2[1])])])
+        node = Node("cut", None, [], [par, circ(cx + (d1[0] + d2[0]) / 2, cy + (d1[1] + d2[1]) / 2, Fr(3, 8))])
+    else:
+        delta = rng.choice([Fr(1, 4), Fr(1, 8), Fr(1, 16)]) * r
+        node = Node("inter", None, [], [circ(cx, cy, r), circ(cx + 2 * r - delta, cy, r)])
+    w = rng.random()
+    if w < 0.25:
+        t = [C(dy(rng, -2, 2)), C(dy(rng, -2, 2))]
+        if params and rng.random() < 0.6:
+            t[0] = ("+", t[0], ("*", C(dy(rng, -1, 1, 4) or Fr(1, 2)), ("v", params[0], 0)))
+        node = Node("translate", "x", [PF(t)], [node])
+    elif w < 0.4:
+        co, si = rng.choice([(Fr(3, 5), Fr(4, 5)), (Fr(0), Fr(1)), (Fr(-4, 5), Fr(-3, 5))])
+        node = Node("rotate", "x", [PF([C(co), C(-si), C(si), C(co)]), PF([C(dy(rng, -1, 1)), C(dy(rng, -1, 1))])], [node])
+    return node
+
+
 def gen_expr(ctx, mode, params, prows):
     """returns a Node (validated for positive measure) or None"""
     rng = ctx.rng
+    if mode == "thin":
+        return gen_thin(rng, params)
     for _ in range(40):
         g = Gen(rng, params=params, p_dep=0.7 if mode in ("prim", "primbdry") else 0.4)
         depth = rng.choice([2, 2, 3]) if ctx.quick else rng.choice([2, 3, 3, 4])
@@ -247,7 +286,7 @@ N_CHOICES = [1, 2, 3, 7, 40]
 
 def make_case(ctx, idx):
     rng = ctx.rng
-    mode = rng.choice(["prim", "prim", "primbdry", "primbdry", "solid", "solid", "solid", "solid", "bdry", "bdry", "prod", "sel", "sel"])
+    mode = rng.choice(["prim", "prim", "primbdry", "primbdry", "solid", "solid", "solid", "solid", "bdry", "bdry", "prod", "sel", "sel", "thin", "thin"])
     params = rng.choice([[], ["t"], ["t"], ["t", "D"]])
     k = rng.choice([1, 2, 3]) if params else 0
     if mode == "prod":
@@ -259,6 +298,8 @@ def make_case(ctx, idx):
     n = rng.choice(N_CHOICES)
     if mode in ("prim", "primbdry"):
         api = rng.choice(["dom.random", "dom.random", "dom.grid", "dom.random.d", "dom.grid.d", "smp.uniform", "smp.grid"])
+    elif mode == "thin":
+        api = rng.choice(["dom.grid", "dom.grid", "smp.grid", "dom.random", "smp.uniform"])
     elif mode == "sel":
         api = rng.choice(["sel.random", "sel.random", "sel.grid"])
     elif mode == "prod":
@@ -277,6 +318,8 @@ def make_case(ctx, idx):
         call["n"] = rng.choice([1, 2, 3, 7, 12, 40, 100])
     if api.startswith("smp.grid"):
         call["n"] = rng.choice([1, 2, 3, 7, 12, 40])
+    if mode == "thin":
+        call["n"] = rng.choice([1, 1, 2, 3, 5, 8, 10])      # small n: the first grid of the grid paths is empty
     if api.endswith(".f"):
         # half-space through the centre of the domain's box at the first parameter row
         col = rng.choice([0, 1]) if DIM[node.vars()[0]] > 1 else 0
